@@ -11,11 +11,11 @@
   FULL STATEMENT, FALSE OF THE UNCHANGED CODE (defect D6, finding F06-TAILSPLIT):
       "every stdio call is one whole record; the final unterminated fragment -- label and the
        bytes that follow it -- is ONE call"
-  dsh.c `_flush_output` writes the label by `out("%S: ", host)` and the fragment by a second
+  dsh.c `_flush_output` (before the repair 449f4a4) wrote the label by `out("%S: ", host)` and the fragment by a second
   call `out("%s", buf)`.  The model carries that as the switch `Cfg.tailSplit`:
     * `records_atomic_partial`   proves the full statement under `cfg.tailSplit = false`
                                  (the repaired form: one `out("%S: %s", host, buf)`);
-    * `tail_split_is_the_defect` proves that with `cfg.tailSplit = true` (the code as it stands)
+    * `tail_split_is_the_defect` proves that with `cfg.tailSplit = true` (the code before 449f4a4)
                                  every stream with labels on and a non-empty final fragment violates
                                  it, in exactly one way: bare label, then the data;
     * `line_records_atomic`      holds for both forms: all LINE records are whole and come first.
@@ -118,7 +118,7 @@ theorem tail_split_is_the_defect (cfg : Cfg) (hsplit : cfg.tailSplit = true) (hl
 
 /-- D6 at its smallest: host "h", stream "x" -> the two stdio calls "h: " and "x" -/
 theorem tail_split_witness : ∀ b0, mkFifoBuf 1 = some b0 →
-    (runStream fifoOps ⟨true, false, true⟩ [104] [104] 1 true b0 [[120]]).ems =
+    (runStream fifoOps ⟨true, false, true, false, false⟩ [104] [104] 1 true b0 [[120]]).ems =
       [⟨1, [104, 58, 32]⟩, ⟨1, [120]⟩] := by
   intro b0 h
   simp [mkFifoBuf, Cbuf.Spec.create, Gen.RELAY_CBUF_MIN, Gen.RELAY_CBUF_MAX] at h
@@ -148,9 +148,9 @@ theorem records_carry_own_label (labels optK : Bool) (targets : List Bytes) (hos
     (hb0 : mkFifoBuf sizeMeta = some b0) (script : List Bytes)
     (hdom : Spec.Dom05 (markerOf readRc) script.flatten = true) :
     Spec.c06Ok (Spec.recPrefix labels optK targets host) script.flatten
-      ((runStream fifoOps ⟨labels, keepDomain optK targets, false⟩ host t0host strm readRc b0 script).ems.map
+      ((runStream fifoOps ⟨labels, keepDomain optK targets, false, false, false⟩ host t0host strm readRc b0 script).ems.map
         Em.bytes) = true := by
-  have h := records_atomic_partial ⟨labels, keepDomain optK targets, false⟩ rfl host t0host strm readRc
+  have h := records_atomic_partial ⟨labels, keepDomain optK targets, false, false, false⟩ rfl host t0host strm readRc
     hm1 hm2 hb0 script hdom
   simp only [pfx] at h
   rw [label_correct labels optK targets host hn ht] at h
